@@ -600,6 +600,8 @@ func (s *sim) pacingChecks() {
 
 // Run executes one run.
 func Run(t *testing.T, r *vkit.Run, idx int, cfg Config) {
+	stop := r.Watchdog(idx, 5*time.Minute, func() any { return fmt.Sprintf("%+v", cfg) })
+	defer stop()
 	synctest.Test(t, func(t *testing.T) {
 		s := &sim{r: r, idx: idx, rng: r.Rand(idx), opRng: r.Rand(idx, 7), cfg: cfg, fp: vkit.NewHash(), target: map[uint64]uint64{}, model: map[uint64]uint64{},
 			modelRev: map[uint64]uint64{}, r2done: map[uint64]uint64{}, t0: time.Now()}
